@@ -22,6 +22,7 @@
 #include "draco/mesh/mesh.h"
 #include "draco/mesh/triangle_soup_mesh_builder.h"
 #include "draco/point_cloud/point_cloud_builder.h"
+#include "draco/metadata/geometry_metadata.h"
 using namespace draco;
 
 // ------------------------------------------------------------------ allocation monitor (C18)
@@ -106,6 +107,13 @@ static std::unique_ptr<PointCloud> gen_pc(Rng &r) {
 
 struct Stream { std::vector<uint8_t> bytes; std::string label; bool mesh; bool legacy = false; };
 
+// geometry + attribute metadata with nested sub-metadata (the metadata block sits right behind the header)
+static void add_metadata(Rng &r, PointCloud *pc) {
+  std::unique_ptr<GeometryMetadata> gm(new GeometryMetadata()); gm->AddEntryString("name", "m" + S((int64_t)r.below(100))); gm->AddEntryInt("i", (int32_t)r.next());
+  std::unique_ptr<Metadata> sub(new Metadata()); sub->AddEntryDouble("d", 1.25); std::unique_ptr<Metadata> sub2(new Metadata()); sub2->AddEntryString("k", "v"); sub->AddSubMetadata("inner", std::move(sub2)); gm->AddSubMetadata("sub", std::move(sub));
+  if (pc->num_attributes() > 0) { std::unique_ptr<AttributeMetadata> am(new AttributeMetadata()); am->set_att_unique_id(pc->attribute(0)->unique_id()); am->AddEntryString("a", "b"); std::unique_ptr<Metadata> s3(new Metadata()); s3->AddEntryInt("z", 7); am->AddSubMetadata("s", std::move(s3)); gm->AddAttributeMetadata(std::move(am)); }
+  pc->AddMetadata(std::move(gm));
+}
 static void encode_mesh_variants(Rng &r, const Mesh &m, std::vector<Stream> &out, int k) {
   struct V { int method, speed, sub, pred; bool builtin; };
   std::vector<V> vs = {{MESH_SEQUENTIAL_ENCODING, 3, 0, -1, true}, {MESH_EDGEBREAKER_ENCODING, 0, MESH_EDGEBREAKER_STANDARD_ENCODING, -1, true},
@@ -228,7 +236,10 @@ static void run_case(FILE *out, const Case &c, Shared *sh) {
                                (g_kd_dim > 0 && worst <= bound + kd_stacks) ? "C18-kdtree-decoder-stacks-quadratic-in-declared-dimension" : "C18",
                                (unsigned long long)g_maxreq.load(), (unsigned long long)g_peak.load(), (unsigned long long)bound, (unsigned long long)g_declared, (unsigned long long)g_kd_dim, c.bytes.size(), c.label.c_str(), hex(c.bytes.data(), c.bytes.size()).c_str());
   if (!res.empty() && K_PER_ELEMENT * g_declared + K_PER_BYTE * c.bytes.size() < (1ull << 28))   // an allocation failure is tolerated only for arrays sized by a declared count
-    fprintf(out, "! C02 %s without a large declared element count (declared=%llu): %s %s\n", res.c_str(), (unsigned long long)g_declared, c.label.c_str(), hex(c.bytes.data(), c.bytes.size()).c_str());
+  { fprintf(out, "! C02 %s without a large declared element count (declared=%llu): %s %s\n", res.c_str(), (unsigned long long)g_declared, c.label.c_str(), hex(c.bytes.data(), c.bytes.size()).c_str());
+    // the same event seen from C18: memory grew until the allocator (here: the monitor's cap) refused, with nothing declared to justify it
+    fprintf(out, "! C18 allocation grew to the monitor's cap (%s) although the stream declares few elements: max_request=%llu peak=%llu bound=%llu declared=%llu len=%zu %s %s\n", res.c_str(),
+            (unsigned long long)g_maxreq.load(), (unsigned long long)g_peak.load(), (unsigned long long)bound, (unsigned long long)g_declared, c.bytes.size(), c.label.c_str(), hex(c.bytes.data(), c.bytes.size()).c_str()); }
   uint64_t ratio = worst * 1000 / (bound ? bound : 1); if (ratio > sh->worst_alloc_ratio_x1000) sh->worst_alloc_ratio_x1000 = ratio;
   if (ok) sh->accepted++; else sh->rejected++;
   fflush(out);
@@ -248,12 +259,12 @@ int main(int argc, char **argv) {
   Rng r(strtoull(argv[2], 0, 10));
   std::vector<Stream> streams;
   int ng = thorough ? 60 : 14;
-  for (int i = 0; i < ng; i++) { auto m = gen_mesh(r, i % 2); if (m) encode_mesh_variants(r, *m, streams, thorough ? 5 : 3); }
-  for (int i = 0; i < ng; i++) { auto p = gen_pc(r); if (p) encode_pc_variants(r, *p, streams, thorough ? 4 : 2); }
+  for (int i = 0; i < ng; i++) { auto m = gen_mesh(r, i % 2); if (m && i % 4 == 3) add_metadata(r, m.get()); if (m) encode_mesh_variants(r, *m, streams, thorough ? 5 : 3); }
+  for (int i = 0; i < ng; i++) { auto p = gen_pc(r); if (p && i % 4 == 1) add_metadata(r, p.get()); if (p) encode_pc_variants(r, *p, streams, thorough ? 4 : 2); }
   boundary_meshes(streams, thorough);
   size_t ngen = streams.size();
   load_legacy(streams);
-  std::vector<Case> cases;
+  std::vector<Case> cases; int metadata_sweeps = 0;
   for (auto &s : streams) {   // the valid stream through every entry point, then corruptions
     cases.push_back({s.bytes, "valid " + s.label, s.mesh ? 0 : 1}); cases.push_back({s.bytes, "valid " + s.label, 2}); cases.push_back({s.bytes, "valid " + s.label, 3});
     if (s.mesh) cases.push_back({s.bytes, "valid+skip " + s.label, 4});
@@ -263,6 +274,12 @@ int main(int argc, char **argv) {
     if (s.label.compare(0, 13, "boundary-mesh") == 0)   // deterministic sweep over the framing + connectivity bytes
       for (size_t p = 0; p < std::min<size_t>(s.bytes.size(), 44); p++) { const uint8_t o = s.bytes[p]; const uint8_t pats[] = {0x00, 0x7f, 0x80, 0xff, (uint8_t)(o ^ 1), (uint8_t)(o ^ 0x40), (uint8_t)(o + 1), (uint8_t)(o | 0x0f)};
         for (uint8_t v : pats) if (v != o) { std::vector<uint8_t> b = s.bytes; b[p] = v; cases.push_back({b, "sweep@" + U(p) + "=" + U(v) + " of " + s.label, 0}); } }
+    // counts that guards multiply before comparing (n * k > remaining): values that wrap to something small under a 32-bit multiplication
+    // by k = 2..8, 12, 16, 24, as 5-byte varints at every offset of the metadata block of streams that carry metadata
+    if (s.bytes.size() >= 12 && s.bytes.size() < 700 && (s.bytes[10] & 0x80) && !s.legacy && metadata_sweeps < (thorough ? 6 : 2)) { metadata_sweeps++;
+      for (size_t p = 11; p < std::min<size_t>(s.bytes.size(), 150); p++) for (uint32_t k : {2u, 3u, 4u, 5u, 6u, 7u, 8u, 12u, 16u, 24u}) for (uint32_t j = 1; j < k && j <= 2; j++) for (uint32_t add : {0u, 1u}) {
+        uint32_t v = (uint32_t)((((uint64_t)j << 32) + k - 1) / k) + add; std::vector<uint8_t> b(s.bytes.begin(), s.bytes.begin() + p); uint32_t x = v; for (int t = 0; t < 5; t++) { uint8_t byte = x & 0x7f; x >>= 7; if (t < 4) byte |= 0x80; b.push_back(byte); }
+        b.insert(b.end(), s.bytes.begin() + p + 1, s.bytes.end()); cases.push_back({b, "wrapcount*" + U(k) + "@" + U(p) + " of " + s.label, s.mesh ? 0 : 1}); } }
     // old bitstream versions store sizes and counts as fixed 32- and 64-bit fields where the current one uses varints: on the small
     // legacy streams every offset gets a 32-bit and a 64-bit value with the top bit set and an all-ones value
     if (s.legacy && s.bytes.size() >= 11 && s.bytes.size() < 1200 && !(s.bytes[5] == 2 && s.bytes[6] >= 2))
